@@ -122,6 +122,8 @@ def run(P, R, tier):
     check_weights(P, R)
     from ..engines import traps as _traps
     _traps.check(P, R, ['gmm', 'kmeans', 'ivector'], scope='(gmm:(ml_gmm_m_step|map_gmm_m_step|GMMMachine\\.(variances|weights|variance_thresholds|__init__)\\b)|kmeans:(m_step|reduce_indices_means_vars|accumulate_indices_means_vars|e_step)|ivector:m_step)')
+    from .C05 import check_blend as _cb13
+    _cb13(P, R)  # the no-evidence fallbacks of the MAP update (a component without data keeps the prior's value: no 0/0)
 
 
 EXPLANATION += ' Also: (SIMPLEX.init) the default weights of a new machine are n entries of 1/n; G4 accepts only configuration scalars as count floors.'
